@@ -8,3 +8,6 @@ cp ../coq/x_*.ml ../coq/x_*.mli _build/
 cd _build
 XS=$(ls x_*.ml | sort)
 DS=$(ls drv_*.ml | sort)
+FILES=""
+for x in $XS; do FILES="$FILES ${x}i $x"; done
+ocamlfind ocamlopt -w -a sexp.ml registry.ml $FILES $DS main.ml -o ../../bin/fomodel
